@@ -150,10 +150,10 @@ func c14XCheckJob(prior string, base int32, depth int) Job {
 		pods := pmPods(base)
 		var alphabet []pmOp
 		alphabet = append(alphabet, pmOp{"basic", nil})
-		for _, p := range []string{"x", "y", "x2"} {
+		for _, p := range []string{"x", "y", "x2", "v"} {
 			alphabet = append(alphabet, pmOp{"setup", []string{p}}, pmOp{"clean", []string{p}})
 		}
-		for _, ps := range [][]string{{}, {"x"}, {"x", "y"}, {"x2"}} {
+		for _, ps := range [][]string{{}, {"x"}, {"x", "y"}, {"x2"}, {"x", "v"}} {
 			alphabet = append(alphabet, pmOp{"fullsync", ps})
 		}
 		var hists [][]pmOp
